@@ -161,6 +161,9 @@ def other_tomographies(chk, tier):
         cfgs.append(("qpt", StandardQpt(sts, pvs, on_para_eq_constraint=para), [qobjs.gen("gate", "hadamard", c), qobjs.gen("gate", "x90", c)], para))
         if tier == "thorough" or para:
             cfgs.append(("qmpt:m2", StandardQmpt(sts, pvs, 2, on_para_eq_constraint=para), [qobjs.gen("mprocess", "z-type1", c)], para))
+        if para:
+            # three outcomes: the variable-level projection has to rebuild the implied first row from two other outcomes
+            cfgs.append(("qmpt:m3", StandardQmpt(sts, pvs, 3, on_para_eq_constraint=para), [qobjs.povm3_qubit().generate_mprocess(mode_backaction=0)], para))
             cfgs.append(("qst:qutrit", StandardQst(qobjs.tester_povms("qutrit"), on_para_eq_constraint=para), [qobjs.gen("state", "01x0", c3), qobjs.gen("state", "02z1", c3)], para))
     for name, qt, trues, para in cfgs:
         tagp = "%s:%s" % (name, "para" if para else "nopara")
@@ -178,7 +181,7 @@ def other_tomographies(chk, tier):
                 if v.shape != want.shape or np.max(np.abs(v - want)) > tol:
                     chk.violation("exact_data:%s:%s" % (en, tagp), "exact data of a physical object are not returned (max dev %.3g)" % float(np.max(np.abs(v - want))), dict(tomo=tagp))
         # few-shot data with zeros and far-out data
-        for trial in range(2 if tier == "quick" else 8):
+        for trial in range(0 if (name == "qmpt:m3" and tier == "quick") else 2 if tier == "quick" else 8):
             data = []
             for m in sizes:
                 if trial % 2 == 0:
